@@ -566,14 +566,14 @@ func (r *Reader) parseTable(tableNode *html.Node) *ParsedTable {
 		Rows: make([][]TableCell, 0),
 	}
 
-	// Find thead, tbody, or direct tr children
+	// Find thead, tbody, tfoot, or direct tr children
 	for c := tableNode.FirstChild; c != nil; c = c.NextSibling {
 		if c.Type == html.ElementNode {
 			switch c.Data {
 			case "thead":
 				table.HasHeader = true
 				r.parseTableRows(c, table, true)
-			case "tbody":
+			case "tbody", "tfoot":
 				r.parseTableRows(c, table, false)
 			case "tr":
 				row := r.parseTableRow(c, false)
